@@ -1,8 +1,18 @@
 //! Runs a case through a real `turmoil::Sim`: ops execute inside a host's
-//! software, `crash` is `Sim::crash` + `Sim::bounce`, later ops run in the
-//! restarted software.
+//! software, `crash` is `Sim::crash` (+ `Sim::bounce` before the next ops), later
+//! ops run in the restarted software.
+//!
+//! `via=sim`          the software parks on `pending().await` after its ops (files stay open
+//!                    until the crash cancels the task)
+//! `via=sim-ret`      the software returns `Ok(())` right after its ops: the host is *down*
+//!                    (`is_host_running == false`) when `Sim::crash` is called
+//! `via=sim-retlate`  as above, but it sleeps a few ticks before returning
+//!
+//! `crash` variants (second token after the op name): none = by host name, `re` = by a regex
+//! that also matches an idle second host, `twice` = crash, crash again (a no-op for the fs),
+//! `dcrash` (op name) is not used here.
 
-use crate::exec::{exec_op, Host, NSLOTS};
+use crate::exec::{exec_op, Host};
 use crate::Case;
 use std::sync::{Arc, Mutex};
 use std::time::Duration;
@@ -23,11 +33,14 @@ pub fn run_case(case: &Case) -> Vec<String> {
 }
 
 fn run(case: &Case) -> Vec<String> {
+    let mode = case.cfg.via.clone();
     let mut segments: Vec<Vec<String>> = vec![vec![]];
+    let mut crash_lines: Vec<String> = vec![];
     for op in &case.ops {
         let name = op.split_whitespace().nth(1).unwrap_or("");
         if name == "crash" {
             segments.push(vec![]);
+            crash_lines.push(op.clone());
         } else {
             segments.last_mut().unwrap().push(op.clone());
         }
@@ -40,11 +53,25 @@ fn run(case: &Case) -> Vec<String> {
     b.rng_seed(case.cfg.fsseed)
         .tick_duration(Duration::from_millis(1))
         .simulation_duration(Duration::from_secs(60));
+    if case.cfg.sync_p > 0 {
+        b.fs().sync_probability(case.cfg.sync_p as f64 / 100.0);
+    }
+    if case.cfg.block > 0 {
+        b.fs().block_size(case.cfg.block);
+    }
+    crate::exec::neutral_knobs(b.fs(), case.cfg.fsseed);
     let mut sim = b.build();
+    // an idle second host with its own fs: the regex crash matches both
+    sim.host("h2", || async move {
+        std::future::pending::<()>().await;
+        Ok(())
+    });
     let sh = Arc::clone(&shared);
+    let mode2 = mode.clone();
     sim.host("h", move || {
         let sh = Arc::clone(&sh);
         let pool = pool.clone();
+        let mode = mode2.clone();
         async move {
             let seg = {
                 let mut g = sh.lock().unwrap();
@@ -53,10 +80,7 @@ fn run(case: &Case) -> Vec<String> {
                 g.segments.get(i).cloned().unwrap_or_default()
             };
             // a dummy Fs: exec_op only touches `fs` for the direct-mode crash op
-            let mut host = Host {
-                fs: Arc::new(Mutex::new(turmoil_fs::Fs::default())),
-                slots: (0..NSLOTS).map(|_| None).collect(),
-            };
+            let mut host = Host::new(Arc::new(Mutex::new(turmoil_fs::Fs::default())));
             let _ = turmoil_fs::verif::take();
             for op in seg {
                 let toks: Vec<&str> = op.split_whitespace().collect();
@@ -69,11 +93,27 @@ fn run(case: &Case) -> Vec<String> {
                 }
                 g.lines.push(format!("OBS {}", obs));
             }
-            sh.lock().unwrap().done = true;
-            // keep the files open until the crash cancels this task
-            std::future::pending::<()>().await;
-            drop(host);
-            Ok(())
+            match mode.as_str() {
+                "sim-ret" => {
+                    // the files are closed by the return, the software is gone before the crash
+                    drop(host);
+                    sh.lock().unwrap().done = true;
+                    Ok(())
+                }
+                "sim-retlate" => {
+                    tokio::time::sleep(Duration::from_millis(3)).await;
+                    drop(host);
+                    sh.lock().unwrap().done = true;
+                    Ok(())
+                }
+                _ => {
+                    sh.lock().unwrap().done = true;
+                    // keep the files open until the crash cancels this task
+                    std::future::pending::<()>().await;
+                    drop(host);
+                    Ok(())
+                }
+            }
         }
     });
 
@@ -86,15 +126,41 @@ fn run(case: &Case) -> Vec<String> {
                 panic!("segment did not finish");
             }
         }
+        if mode != "sim" {
+            // let the runtime notice that the software future completed
+            sim.step().expect("sim step");
+            sim.step().expect("sim step");
+            if sim.is_host_running("h") {
+                panic!("software still running after it returned");
+            }
+        }
         if s + 1 < nseg {
-            sim.crash("h");
+            let line = crash_lines[s].clone();
+            let variant = line.split_whitespace().nth(2).unwrap_or("");
+            match variant {
+                "re" => sim.crash(regex::Regex::new("^h.*$").unwrap()),
+                "twice" => {
+                    sim.crash("h");
+                    sim.step().expect("sim step");
+                    sim.crash("h");
+                }
+                _ => sim.crash("h"),
+            }
             {
                 let mut g = shared.lock().unwrap();
-                g.lines.push("OP s0 crash".into());
+                g.lines.push(format!("OP {}", line));
+                // torn-write decisions drawn by Fs::crash (of host h; h2 has nothing pending)
+                for (k, v) in turmoil_fs::verif::take() {
+                    g.lines.push(format!("ORA {} {}", k, v));
+                }
                 g.lines.push("OBS ok".into());
                 g.done = false;
             }
-            sim.bounce("h");
+            if variant == "re" {
+                sim.bounce(regex::Regex::new("^h.*$").unwrap());
+            } else {
+                sim.bounce("h");
+            }
         }
     }
     let g = shared.lock().unwrap();
